@@ -112,8 +112,11 @@ def model_phase(rep):
     jobs['coverage'] = lambda: run_tlc('c19-cover', ['FamCov'], bare=True, coverage=True, timeout=tmo)
     for bug in mutants:
         jobs['mutant:' + bug] = (lambda bug: lambda: run_tlc('c19-mutant-' + bug, [SPEC_MUTANTS[bug]], bug=bug, timeout=tmo))(bug)
-    jobs.update(c19_v1.jobs(rep))
-    with concurrent.futures.ThreadPoolExecutor(max_workers=min(12, os.cpu_count() or 4)) as pool:
+    # the long runs first: the version 1 families, then the exhaustive and simulation runs above, the small ones (coverage, mutants) last
+    allj = dict(c19_v1.jobs(rep))
+    allj.update(jobs)
+    jobs = dict(sorted(allj.items(), key=lambda kv: ('exhaustive' not in kv[0], 'simulate' not in kv[0])))
+    with concurrent.futures.ThreadPoolExecutor(max_workers=min(16, os.cpu_count() or 4)) as pool:
         futs = {k: pool.submit(f) for k, f in jobs.items()}
         results = {k: f.result() for k, f in futs.items()}
     rep.lap('tlc')
